@@ -906,7 +906,16 @@ class Interp:
         raise self.err(f"unary operator on {v!r}", e, fi)
 
     def _e_BinOp(self, e, env, fi):
-        return self.binop(e.op, self.eval(e.left, env, fi), self.eval(e.right, env, fi), e, fi)
+        res = self.binop(e.op, self.eval(e.left, env, fi), self.eval(e.right, env, fi), e, fi)
+        lim = getattr(self, "size_limit", None)
+        if lim is not None and isinstance(res, Rat):
+            n = len(res.num.terms)
+            self.max_terms = max(getattr(self, "max_terms", 0), n)
+            if n > lim:
+                # a deterministic budget for evaluations on concrete small models: forms that grow this large will not be
+                # compared in reasonable time; the rule gives up on this tree (exit 2) instead of running for hours
+                raise self.err(f"canonical form of {n} terms exceeds the budget of {lim} of this evaluation", e, fi)
+        return res
 
     def binop(self, op, l, r, node, fi):
         if isinstance(op, ast.Add) and isinstance(l, (tuple, list)) and isinstance(r, type(l)):
@@ -944,8 +953,10 @@ class Interp:
             if isinstance(op, (ast.BitAnd, ast.BitOr, ast.BitXor, ast.LShift, ast.RShift)) and l.denominator == 1 \
                     and r.denominator == 1:
                 a, b = int(l), int(r)
-                return Fraction({ast.BitAnd: a & b, ast.BitOr: a | b, ast.BitXor: a ^ b, ast.LShift: a << b,
-                                 ast.RShift: a >> b}[type(op)])
+                if isinstance(op, (ast.LShift, ast.RShift)) and not 0 <= b <= 4096:
+                    raise self.err(f"shift by {b} bits", node, fi)
+                return Fraction({ast.BitAnd: lambda: a & b, ast.BitOr: lambda: a | b, ast.BitXor: lambda: a ^ b,
+                                 ast.LShift: lambda: a << b, ast.RShift: lambda: a >> b}[type(op)]())
         if isinstance(l, (Rat,) + NUM) and isinstance(r, (Rat,) + NUM) and not isinstance(l, bool) \
                 and not isinstance(r, bool):
             if isinstance(op, ast.Pow):
